@@ -185,6 +185,52 @@ CLAIMED = {
 }
 NOT_BUILT = "check not built yet (framework under construction; see DESIGN.md section 11)"
 
+CLUSTER_TECH = 'contract-based deductive verification of the composed machines: the real transition tables and output bodies of the thirteen mailbox-side machines (wired by interpreting the real Boss._build_workers) are executed symbolically from every state of an inductive invariant (unary/pairwise clauses inferred Houdini-style, cached and re-checked on every run) under an environment contract; loop heads are cut with framed invariants; function-level contracts (pyvc) carry the data parts; refutations are turned into native event histories on the real classes'
+import sys
+sys.path.insert(0, ROOT)
+from props.mailbox_ready import CLUSTER_READY
+if CLUSTER_READY:
+    CLAIMED.update({
+    "C14": dict(
+        text="For the composed mailbox-side client (Boss, Nameplate, Mailbox, Terminator, Code, Allocator, Lister, Input, Key, "
+             "_SortedKey, Order, Receive, Send, RendezvousConnector; real tables, real output bodies, real wiring) and every entry "
+             "point of the environment contract (API and input-helper calls, websocket open/close incl. 'closed before it opened', "
+             "ClientService and Dilator callbacks, every server message type with arbitrary contents: own echoes, peer, third "
+             "participant, duplicates, any order) it is proved from every state of an inductive invariant that no machine receives "
+             "an input it has no row for (nodom:*), no assert in cluster code fails, nothing but the documented API errors escapes "
+             "an entry point, and the close() result is 'happy' or a documented WormholeError. The obligations that fail do so for "
+             "one reason, listed as known findings with native histories: malformed or ill-timed content from the peer / a third "
+             "participant surfaces as an undocumented exception.",
+        note="Assumed: environment contract E1-E5 (DESIGN 3.3, 12.5: conformant server replies, FIFO replies per connection, "
+             "Twisted ClientService/Deferred behaviour as modelled, helper only before close()); Automat dispatch semantics; "
+             "regular expressions as uninterpreted predicates with a minimal match length, crypto values as fresh byte strings; "
+             "Mailbox._drain and Order.drain through their contracts (C09, C03); the first internal failure ends a path. The "
+             "invariant file is an annotation, re-established on every run.",
+        design="6/C14, 12.5", technique=CLUSTER_TECH),
+    "C08": dict(
+        text="Machine level (mailbox-cluster engine, same exploration as C14): W.closed is delivered at most once and nothing is "
+             "delivered after it; it is delivered only when the Terminator has stopped (nameplate released or never claimed, mailbox "
+             "closed with the mood the Boss chose, ClientService stopped, Dilator stopped) or on the error path; the verdict kind is "
+             "justified by what was seen while the wormhole was open (happy => a peer message decrypted, lonely => none, scary => an "
+             "undecryptable one, ServerError/WelcomeError => the server said so) and, conversely, an error welcome / server error "
+             "that arrives before closing makes WelcomeError / ServerError the verdict; the verdict is recorded once; release/close "
+             "are re-issued after a reconnect. Function level: _DeferredWormhole.closed/close contracts (C18).",
+        note="Liveness ('once connectivity allows, closed is delivered') is not decided: the obligations are safety. Same "
+             "assumptions as C14. Both deferred and delegated API share the Boss; the delegated hand-over is boundary.",
+        design="6/C08, 12.5", technique=CLUSTER_TECH),
+    "C09": dict(
+        text="Reconnect contract read off the real tables of Nameplate, Mailbox, Allocator, Lister (lost keeps the durable numeral "
+             "and does nothing; connected re-issues exactly the outstanding request); Mailbox._drain re-submits every un-echoed "
+             "message unchanged (loop invariant on the real body); machine level (mailbox-cluster engine): after every ws_open the "
+             "client has bound first and claim / release / open / close / allocate / list are on the wire again whenever the "
+             "machines believe them outstanding, every add follows bind, every pending message is re-added; no machine that lives "
+             "across connections gets an input without a row (lost/connected in the wrong half, a peer message handed on twice after "
+             "re-opening); application-visible events stay once-only.",
+        note="Liveness (the key exchange completes, every message is delivered once both sides stay connected) is not decided; "
+             "a second client is not composed: the peer is the environment. Same assumptions as C14.",
+        design="6/C09, 12.5", technique=CLUSTER_TECH),
+    })
+
 checks = []
 for pid, c in CLAIMED.items():
     checks.append({
